@@ -41,6 +41,7 @@ Inductive expr :=
 | ELit (t : ity) (z : Z)          (* integer literal (digits, z >= 0) of integer type t *)
 | ELitF (t : fty) (b : Z)         (* numeric literal of float type; b = IEEE-754 bit pattern of its value *)
 | EVar (i : nat)                  (* parameter / local, by index *)
+| ESVar (i : nat)                 (* stateful variable (declared with $=), by index *)
 | EParen (e : expr)               (* ( e ) *)
 | ENeg (e : expr)                 (* - e *)
 | ENot (e : expr)                 (* not e *)
@@ -67,6 +68,10 @@ Inductive stmt :=
                                                     locals __for_limit / __for_step *)
 | SBreak
 | SContinue
+(* stateful variables: "x $= e persists across function invocations" *)
+| SStateDecl (i : nat) (t : ty) (e : expr)       (* x T $= e *)
+| SSAssign (i : nat) (e : expr)                  (* x = e,   x stateful *)
+| SSCompound (i : nat) (op : arith) (e : expr)   (* x op= e, x stateful *)
 with block := BNil | BCons (s : stmt) (b : block)
 with els :=
 | ElNone                                         (* no else *)
@@ -90,7 +95,7 @@ Definition f_tys (f : func) : list ty := f_params f ++ f_locals f.
    chain of the same logical operator is read left to right. *)
 Definition prec (e : expr) : nat :=
   match e with
-  | ELit _ _ | ELitF _ _ | EVar _ | EParen _ | ECast _ _ => 0
+  | ELit _ _ | ELitF _ _ | EVar _ | ESVar _ | EParen _ | ECast _ _ => 0
   | EPow _ _ => 1
   | ENeg _ | ENot _ => 2
   | EArith (AMul | ADiv | AMod) _ _ => 3
@@ -104,7 +109,7 @@ Definition is_or (e : expr) := match e with EOr _ _ => true | _ => false end.
 
 Fixpoint parens_ok (e : expr) : bool :=
   match e with
-  | ELit _ _ | ELitF _ _ | EVar _ => true
+  | ELit _ _ | ELitF _ _ | EVar _ | ESVar _ => true
   | EParen e | ECast _ e => parens_ok e
   | ENeg a | ENot a => parens_ok a && Nat.leb (prec a) 2
   | EPow a b => parens_ok a && parens_ok b && Nat.leb (prec a) 0 && Nat.leb (prec b) 2
@@ -123,7 +128,7 @@ Fixpoint type_of (tys : list ty) (sc : list nat) (e : expr) : option ty :=
   match e with
   | ELit t z => if (0 <=? z) && (z <=? imax t) then Some (TI t) else None
   | ELitF t b => if (0 <=? b) && (b <? 2 ^ (match t with F32 => 32 | F64 => 64 end)) then Some (TF t) else None
-  | EVar i => if existsb (Nat.eqb i) sc then nth_error tys i else None
+  | EVar i | ESVar i => if existsb (Nat.eqb i) sc then nth_error tys i else None
   | EParen a => type_of tys sc a
   | ENeg a => type_of tys sc a
   | ENot a => match type_of tys sc a with Some (TI U8) => Some tU8 | _ => None end
@@ -199,6 +204,16 @@ Section Check.
            && check_block (i :: sc) b
         then Some sc else None
     | SBreak | SContinue => Some sc
+    | SStateDecl i t e =>
+        if Nat.leb nparams i && negb (existsb (Nat.eqb i) sc)
+           && match nth_error tys i with Some t' => ty_eqb t t' | None => false end
+           && expr_ok sc e t
+        then Some (i :: sc) else None
+    | SSAssign i e | SSCompound i _ e =>
+        match var_ty sc i with
+        | Some t => if expr_ok sc e t then Some sc else None
+        | None => None
+        end
     end
   with check_block (sc : list nat) (b : block) : bool :=
     match b with
@@ -232,12 +247,22 @@ with returns_els (el : els) : bool :=
   | ElElif _ th el' => returns_block th && returns_els el'
   end.
 
-(* no loop, break or continue anywhere *)
+(* no stateful variable read *)
+Fixpoint pure_expr (e : expr) : bool :=
+  match e with
+  | ELit _ _ | ELitF _ _ | EVar _ => true
+  | ESVar _ => false
+  | EParen a | ENeg a | ENot a | ECast _ a => pure_expr a
+  | EPow a b | EArith _ a b | ECmp _ a b | EAnd a b | EOr a b => pure_expr a && pure_expr b
+  end.
+
+(* the core fragment of the theorems: no loop, break or continue, no stateful variable *)
 Fixpoint loop_free_stmt (s : stmt) : bool :=
   match s with
-  | SDecl _ _ _ | SAssign _ _ | SCompound _ _ _ | SReturn _ => true
-  | SIf _ th el => loop_free_block th && loop_free_els el
+  | SDecl _ _ e | SAssign _ e | SCompound _ _ e | SReturn e => pure_expr e
+  | SIf c th el => pure_expr c && loop_free_block th && loop_free_els el
   | SFor _ _ | SLoop _ | SRange _ _ _ _ _ _ _ | SBreak | SContinue => false
+  | SStateDecl _ _ _ | SSAssign _ _ | SSCompound _ _ _ => false
   end
 with loop_free_block (b : block) : bool :=
   match b with BNil => true | BCons s r => loop_free_stmt s && loop_free_block r end
@@ -245,7 +270,7 @@ with loop_free_els (el : els) : bool :=
   match el with
   | ElNone => true
   | ElElse b => loop_free_block b
-  | ElElif _ th el' => loop_free_block th && loop_free_els el'
+  | ElElif c th el' => pure_expr c && loop_free_block th && loop_free_els el'
   end.
 
 Definition check_func (f : func) : bool :=
